@@ -23,7 +23,6 @@ func (p *Pool) lazyResend() {
 		defer verifhook.At("wpool.flusher.exited")
 		defer func() {
 			verifhook.At("wpool.flusher.beforeExit")
-			p.lazySendM.Unlock()
 			p.sendWg.Done()
 		}()
 
@@ -31,6 +30,11 @@ func (p *Pool) lazyResend() {
 			verifhook.At("wpool.flusher.loop")
 			p.listM.Lock()
 			n := p.el.PopBack()
+			if n == nil {
+				// Give the flusher role up while the list is still locked: a Send
+				// that defers its event after this point starts a new flusher.
+				p.lazySendM.Unlock()
+			}
 			p.listM.Unlock()
 			if n == nil {
 				verifhook.At("wpool.flusher.afterPopNil")
@@ -40,6 +44,7 @@ func (p *Pool) lazyResend() {
 
 			select {
 			case <-p.ctx.Done():
+				p.lazySendM.Unlock()
 				return
 			case p.ch <- n.V():
 				verifhook.At("wpool.flusher.enqueued")
